@@ -17,7 +17,7 @@ use std::sync::Arc;
 pub static DEF: PropDef = PropDef {
     id: "C04",
     level: "exploration",
-    rule: "values of every scalar type (strings with quotes, backslashes, control characters, SQL and JSON metacharacters, ';--, ?1, $x, %, _, arbitrary Unicode scalars, empty, 64 KiB; integers at the i64 and 2^53 edges; finite floats incl. subnormals, -0.0, 1e+-308; booleans; base64 of every length mod 3; nested JSON with unicode keys and large numbers; null where allowed) written as parameter, as literal (encoded with the escapes the grammar accepts) or as a field default, read back, used as equality filter (parameter and literal) and as search term, on a real in-memory connection through the library's parser and executor, with two sentinel rows present. Oracles: value read == value written; the equality filter returns exactly the row; storage diff shows only the target row; the SQL text and parameter count compiled for a literal / default v equal those compiled for a benign value of the same type; no engine error. non-trivial = value with a metacharacter class or a numeric edge; distinct = (type, position, character-class set) R2b: a literal whose text is the name of a variable of the same request, both orders. R3b: a later write of another field of the row leaves the value and the default-bearing field as written.",
+    rule: "values of every scalar type (strings with quotes, backslashes, control characters, SQL and JSON metacharacters, ';--, ?1, $x, %, _, arbitrary Unicode scalars, empty, 64 KiB; integers at the i64 and 2^53 edges; finite floats incl. subnormals, -0.0, 1e+-308; booleans; base64 of every length mod 3; nested JSON with unicode keys and large numbers; null where allowed) written as parameter, as literal (encoded with the escapes the grammar accepts) or as a field default, read back, used as equality filter (parameter and literal) and as search term, on a real in-memory connection through the library's parser and executor, with two sentinel rows present. Oracles: value read == value written; the equality filter returns exactly the row; storage diff shows only the target row; the SQL text and parameter count compiled for a literal / default v equal those compiled for a benign value of the same type; no engine error. non-trivial = value with a metacharacter class or a numeric edge; distinct = (type, position, character-class set) R2b: a literal whose text is the name of a variable of the same request, both orders. R3b: a later write of another field of the row leaves the value and the default-bearing field as written. Integer literals up to +-i64::MAX written to and filtered on a Float field.",
     assumptions: &[
         "float equality is numeric (-0.0 == 0.0); equality filters on Json fields and query-syntax characters in search terms are not demanded",
     ],
